@@ -72,5 +72,7 @@ package middleware
 
 //@ func (*TraceOptions).NewSampler
 //@   requires o != nil
+//   -- the adaptive sampler reads the clock
+//@   requires envReadable
 //@   ensures nonnil: result != nil
 //@   modifies nothing
